@@ -495,6 +495,10 @@ def fuzz_one(data, ctx):
 ROUNDTRIP_VALUES = VALUES + ['/search?q=tea', '<b>hi</b>', '~/notes', 'a>b', 'é?', '中~', {'next': '/a?b=c&d=~e'}, ['?', '>', '~'],
                              'https://e.test/cb?code=~x>y&state=?'] + \
     [('x' * pad) + sym for pad in range(6) for sym in ('?', '>', '~', '?>~', '\xff', '\xfb\xef')]
+# strings JSON and Python allow but UTF-8 does not (unpaired surrogates - what a client produces by cutting text in the
+# middle of an emoji), characters outside the BMP, control characters and the line separators (round 14)
+ROUNDTRIP_VALUES += ['\ud83d', 'party \ud83d', '\udc00x\ud800', ['\ud800'], {'k\udfff': '\ud800'}, '\U0001f600', 'a\U0001f600b\U00010000', '\x00', 'a\x00b',
+                     '\x7f\x1f', '\u2028\u2029', '\ufeffx', '\ufffd', {'\U0001f600': ['\u2028']}]
 
 
 def run_roundtrip(ctx):
